@@ -17,7 +17,7 @@ DELIMS_C03 = [",", "\t", " "]
 SF_CREATE = ["sfile.write", "sfile.write_swapped", "SFile.ctx", "io.write", "SFile.reused", "SFile.reused"]
 RAW_CREATE = ["recfile.write", "Recfile.ctx", "recfile.Open", "Recfile.reused", "Recfile.reused"]
 SF_READ_BASIC = ["sfile.read", "sfile.read_hdr", "SFile.read", "SFile.getitem", "SFile.nocontext", "io.read",
-                 "io.read_hdr", "SFile.reused", "SFile.reused"]
+                 "io.read_hdr", "SFile.reused", "SFile.reused", "SFile.printed"]
 SF_READ = SF_READ_BASIC + ["Recfile.offset", "Recfile.offset_count", "recfile.read.offset", "io.read_dtype_offset",
                            "Recfile.reused.offset"]
 RAW_READ = ["recfile.read", "recfile.read_nrows", "Recfile.read", "Recfile.getitem", "Recfile.descr", "io.read_dtype",
@@ -154,6 +154,8 @@ def caller_roundtrip(r, pfx, form, avoid, delims):
             ops.append({"k": "open_w", "h": h, "p": p, "kind": "SFile" if fform == "sfile" else "Recfile",
                         "mode": "w", "delim": delim})
             ops.append({"k": "write", "h": h, "tab": tab, "hdr": hdr})
+            if fform == "sfile" and chance(r, 0.12):
+                ops[-1]["badhdr"] = pick(r, ["pairs", "nocopy"])
             for _ in range(r.randrange(1, 3)):
                 f = tab["fields"] if (form == "bin" or chance(r, 0.35)) else other_order(tab["fields"])
                 if chance(r, 0.08):
@@ -388,6 +390,8 @@ def caller_history(r, pfx, avoid):
                 nd = nd_of(t)
                 if nd:
                     wop["nd"] = [nd[0], t["nrows"] // nd[0]]
+                if s["form"] == "sfile" and chance(r, 0.08):
+                    wop["badhdr"] = pick(r, ["pairs", "nocopy"])
                 ops.append(wop)
                 if s["fields"] is None:
                     s["fields"] = t["fields"]
@@ -536,10 +540,13 @@ def caller_own(r, pfx, avoid):
             fields = fields + [{"n": "unsup%d" % j, "t": pick(r, ["b1", "c8", "c16"]), "s": [], "o": fields[0]["o"], "p": "simple"}]
 
         def tab():
-            return {"fields": fields, "nrows": draw_nrows(r, small=True), "dseed": r.randrange(1 << 30)}
+            t = {"fields": fields, "nrows": draw_nrows(r, small=True), "dseed": r.randrange(1 << 30)}
+            if txt and chance(r, 0.3) and any(f["t"][0] == "S" for f in fields):
+                t["rawstr"] = True          # string values with line breaks, NULs, any byte
+            return t
 
         def pres():
-            return present.draw(r, allow_convert=False)
+            return present.draw(r, allow_convert=False, table=True)
 
         def wopts():
             # option combinations that select another internal path of the text writer
@@ -617,6 +624,10 @@ def plan(S, prop, mode, tier, avoid):
     # how the caller spells file names: absolute (usual), or with an environment variable / a tilde that esutil
     # expands itself
     pathform = wpick(cfg, [("abs", 8), ("var", 1), ("home", 1), ("mixed", 1.5)])
+    if pathform == "mixed" and chance(cfg, 0.6):
+        # the program changes its working directory (and back) in the middle of the history
+        for _ in range(cfg.randrange(1, 4)):
+            flat.insert(cfg.randrange(0, len(flat) + 1), {"k": "chdir", "c": 0})
     return {"cfg": {"callers": ncallers, "pathform": pathform}, "ops": flat}
 
 
